@@ -340,12 +340,46 @@ let run_expand (x : sexp) : string =
       "(" ^ String.concat " " (List.map2 (fun k (_, ds) -> "(M " ^ k ^ " " ^ String.concat " " (List.map show_expand_decl ds) ^ ")") keys res) ^ ")"
   | _ -> failwith "expand"
 
+(* ---- C17: header extraction ------------------------------------------------------ *)
+let refkinds = Header.[RThenElse,"ThenElse"; RIf,"If"; RBlock,"Block"; RItem,"Item"; RList,"List"; RListItem,"ListItem"]
+let header_node (s : sexp) : Header.node =
+  match s with
+  | L (A "P" :: A tag :: ps) -> Header.NPlain (n_of_string tag, List.map (function A p -> n_of_string p | _ -> failwith "payload") ps)
+  | L [A "F"; A p; A r] -> Header.NFlags (p = "1", n_of_string r)
+  | L [A "R"; A k; A t] -> Header.NRef (fst (List.find (fun (_, n) -> n = k) refkinds), n_of_string t)
+  | L [A "I"; A b] -> Header.NImpl (n_of_string b)
+  | L [A "S"; A e] -> Header.NStart (n_of_string e)
+  | L [A "E"; A st] -> Header.NEnd (n_of_string st)
+  | L [A "X"] -> Header.NEndless
+  | _ -> failwith "header node"
+let show_header_node (n : Header.node) : string =
+  match n with
+  | Header.NPlain (tag, ps) -> "(P " ^ String.concat " " (string_of_n tag :: List.map string_of_n ps) ^ ")"
+  | Header.NFlags (p, r) -> Printf.sprintf "(F %s %s)" (if p then "1" else "0") (string_of_n r)
+  | Header.NRef (k, t) -> Printf.sprintf "(R %s %s)" (List.assoc k refkinds) (string_of_n t)
+  | Header.NImpl b -> "(I " ^ string_of_n b ^ ")"
+  | Header.NStart e -> "(S " ^ string_of_n e ^ ")"
+  | Header.NEnd st -> "(E " ^ string_of_n st ^ ")"
+  | Header.NEndless -> "(X)"
+let run_header (x : sexp) : string =
+  match x with
+  | L nodes ->
+      let ns = List.map header_node nodes in
+      let wf = Header.zones_wfb ns and loc = Header.refs_localb ns in
+      let h = match Header.build_header ns with
+        | Header.Done h -> "(" ^ String.concat " " (List.map show_header_node h) ^ ")"
+        | Header.OutOfFuel -> "OUT-OF-FUEL" | Header.Wrapped -> "WRAPPED" in
+      let spec = "(" ^ String.concat " " (List.map show_header_node (Header.header_spec ns)) ^ ")" in
+      Printf.sprintf "wf=%b local=%b spec_eq=%b\t%s" wf loc (h = spec) h
+  | _ -> failwith "header"
+
 let dispatch (stream : string) (x : sexp) : string =
   match stream with
   | "labels" -> run_labels x
   | "vars" -> run_vars x
   | "exec" -> run_exec 20000 x
   | "expand" -> run_expand x
+  | "header" -> run_header x
   | "tables" -> run_tables (match x with A n -> int_of_string n | _ -> 64)
   | "syntax" -> run_syntax true x
   | "syntax-pinned" -> run_syntax false x
